@@ -534,6 +534,18 @@ func c11Worker(t *testing.T) int {
 	var depth int
 	fmt.Sscanf(os.Getenv("VERIF_C11_WORKER"), "%d/%d/%d", &cfg.MaxMessages, &cfg.MaxBytes, &depth)
 	res := c11Result{Cfg: cfg, Complete: true}
+	// wall-clock budget of this worker (real time: the bubble's clock is virtual);
+	// when it runs out the exploration stops and reports itself incomplete
+	budget := 15 * time.Minute
+	if depth > 5 {
+		budget = 40 * time.Minute
+	}
+	if s := os.Getenv("VERIF_BUDGET"); s != "" {
+		if d, err := time.ParseDuration(s); err == nil {
+			budget = d
+		}
+	}
+	deadline := report.RealNow().Add(budget)
 	synctest.Test(t, func(t *testing.T) {
 		w, err := world.Open()
 		if err != nil {
@@ -557,6 +569,13 @@ func c11Worker(t *testing.T) int {
 		seen := map[string]int{} // key -> smallest depth at which it was expanded
 		var rec func(prefix []string)
 		rec = func(prefix []string) {
+			if !res.Complete {
+				return
+			}
+			if report.RealNow().After(deadline) {
+				res.Complete = false
+				return
+			}
 			viols, key, enabled, sends, err := x.run(prefix)
 			if err != nil {
 				t.Fatalf("harness: %v (events %v)", err, prefix)
@@ -728,6 +747,7 @@ func runC11(t *testing.T, tier string) int {
 	wg.Wait()
 	sink := &violSink{}
 	execs, states, sends, spins, hol := 0, 0, 0, 0, 0
+	allComplete := true
 	per := map[string]any{}
 	var samples []any
 	for i, r := range results {
@@ -738,7 +758,11 @@ func runC11(t *testing.T, tier string) int {
 		execs += r.Executions
 		states += r.States
 		sends += r.Sends
-		per[fmt.Sprintf("messages=%d,bytes=%d", r.Cfg.MaxMessages, r.Cfg.MaxBytes)] = map[string]any{"executions": r.Executions, "quiescent_states": r.States, "sends_checked": r.Sends, "max_depth": r.MaxDepth, "busy_loop_executions": r.Spins, "busy_loop_example": r.SpinExample, "head_of_line_stall_executions": r.HeadOfLine}
+		per[fmt.Sprintf("messages=%d,bytes=%d", r.Cfg.MaxMessages, r.Cfg.MaxBytes)] = map[string]any{"executions": r.Executions, "quiescent_states": r.States, "sends_checked": r.Sends, "max_depth": r.MaxDepth, "busy_loop_executions": r.Spins, "busy_loop_example": r.SpinExample, "head_of_line_stall_executions": r.HeadOfLine, "complete": r.Complete}
+		if !r.Complete {
+			allComplete = false
+			fmt.Printf("C11/events messages=%d bytes=%d: wall-clock budget reached after %d executions (depth %d NOT completed; everything explored held)\n", r.Cfg.MaxMessages, r.Cfg.MaxBytes, r.Executions, depth)
+		}
 		spins += r.Spins
 		hol += r.HeadOfLine
 		for _, v := range r.Viols {
@@ -752,7 +776,7 @@ func runC11(t *testing.T, tier string) int {
 		"transitions":                   execs,
 		"traces_validated_against_impl": execs,
 		"samples":                       samples,
-		"exhaustive":                    true,
+		"exhaustive":                    allComplete,
 		"depth":                         depth,
 		"sends_checked":                 sends,
 		"busy_loop_executions":          spins,
@@ -782,6 +806,10 @@ func runC11(t *testing.T, tier string) int {
 		for _, v := range v2 {
 			sink.add(v)
 		}
+	}
+	if !allComplete {
+		cov["exhaustive"] = false
+		cov["event_layer_note"] = "at least one flow-control configuration reached its wall-clock budget before the depth was completed (see configurations[*].complete)"
 	}
 	ev := report.Evidence{PropertyID: "C11", Tier: tier, Seed: report.Seed(), Level: "model_checking", Coverage: cov,
 		Assumptions: []string{"the gRPC streamWrapper (HTTP/2) is not in the loop", "goroutine interleavings inside one event are whatever the Go scheduler does; both oracles are schedule-independent truths", "no clock advance: lease expiry of held messages is not part of the liveness clause"}}
